@@ -243,6 +243,15 @@ func runEnumPath(seg segment.Segment, want *spec.Obs, f enumFail) (msg string) {
 				}
 			}
 		}
+		var exceptBefore *roaring.Bitmap
+		if except != nil {
+			exceptBefore = except.Clone()
+			defer func() {
+				if msg == "" && !except.Equals(exceptBefore) {
+					msg = fmt.Sprintf("the caller's exclusion bitmap changed from %v to %v", exceptBefore, except)
+				}
+			}()
+		}
 		pl, err := d.PostingsList([]byte(term), except, nil)
 		if err != nil {
 			return err
